@@ -241,10 +241,20 @@ def run_job(spec):
         for key, conds in ctx.bads.items():
             if seen_keys.get(key, 0) >= int(spec.get('max_per_key', 2)):
                 continue
-            cond = z3.Or(*conds) if len(conds) > 1 else conds[0]
-            cond = z3.simplify(cond)
-            if z3.is_false(cond):
-                continue
+            if spec.get('split_queries'):
+                cond = None
+                for c_ in conds:
+                    c_ = z3.simplify(c_)
+                    if not z3.is_false(c_) and e.check(c_):
+                        cond = c_
+                        break
+                if cond is None:
+                    continue
+            else:
+                cond = z3.Or(*conds) if len(conds) > 1 else conds[0]
+                cond = z3.simplify(cond)
+                if z3.is_false(cond):
+                    continue
             if e.check(cond):
                 m = e.solver.model()
                 conc = U.concretize(m)
